@@ -89,6 +89,14 @@ TStep ==
           /\ (EnfC02 /\ e.act = "slice" /\ ~MultiList(e.args) /\ Dom_slice(src.f, e.args) /\ MetaOK(src.m) /\ HasDim(src.f, "TSTEP")
                 /\ HasVar(src.f, "TFLAG")) =>
                ChkS(tr, l + 1, "C02 slice: time flags of the result", TflagSelDiag(src, e.args, g))
+          \* C02 "attributes carried over": every data variable of a slice keeps the
+          \* attributes it has in the source (the IOAPI wrapper re-creates variables)
+          /\ (EnfC02 /\ e.act = "slice" /\ ~MultiList(e.args)) =>
+               \A i \in 1..Len(g.f.vars) :
+                  LET v == g.f.vars[i] IN
+                  (v.name # "TFLAG" /\ HasVar(src.f, v.name)) =>
+                     ChkT(tr, l + 1, "C02 slice: attributes of variable " \o v.name \o " are not those of the source",
+                          NoFV(v.attrs) = NoFV(VarRec(src.f, v.name).attrs))
      /\ (l + 1 = Len(tr.steps) => TrAccept(tr))
 
 TSpec == TInit /\ [][TStep]_tvars
